@@ -41,7 +41,10 @@ NAMED = [MYS, MYS2, MYB, MYB2, MYI, MYJ, MYF, MYG]
 SCALARS = [INT, INT, I64, I32, I8, STR, STR, F64, F32, BYT, BOO, MYS, MYS2, MYB, MYI, MYI, MYJ, MYF, MYG]
 WIDEINT = {"int", "int64", "MyI", "MyJ"}
 # BiMapS/B/I/F families: types over one underlying type (conversions are then mutually inverse)
-FAMILY = {"S": [STR, MYS, MYS2], "B": [BYT, MYB, MYB2], "I": [INT, MYI, MYJ], "F": [F64, MYF, MYG]}
+# (I: also widths that differ — the conversions stay mutually inverse on the values used: the stored type is never wider
+# than the view type, and int8 is only ever the stored type)
+FAMILY = {"S": [STR, MYS, MYS2], "B": [BYT, MYB, MYB2], "I": [INT, MYI, MYJ, I64, I32], "F": [F64, MYF, MYG]}
+WIDTH = {"int8": 1, "int32": 4}
 
 PRINTER = {"int": "aInt", "str": "aStr", "bytes": "aBytes", "float": "aFloat", "bool": "aBool"}
 
@@ -277,6 +280,20 @@ class World:
 # ---------------------------------------------------------------- optic expressions
 
 
+def x_leaf(o):
+    """the BiMapS/B/I/F leaf of an optic tree, if it has one"""
+    if o[0] == "x":
+        return o
+    if o[0] == "f":
+        return None
+    for c in o[1:]:
+        if isinstance(c, tuple):
+            r = x_leaf(c)
+            if r is not None:
+                return r
+    return None
+
+
 def o_src(o):
     return o[1] if o[0] in ("f", "x") else o_src(o[1])
 
@@ -440,6 +457,8 @@ class Gen:
             else:
                 if top in ("g", "s") or K:
                     v = rng.randrange(1, 500)
+                elif x_leaf(o) is not None and x_leaf(o)[6] == "I":
+                    v = rnd(rng, x_leaf(o)[4])  # a value of the stored type (it fits the view type, which is as wide)
                 else:
                     v = rnd(rng, B)
                 ops.append("p " + tok(B, v))
@@ -460,12 +479,12 @@ class Gen:
                 root = self.root_of_level(max(0, depth - 1))
                 if flavour == "x":
                     fam = rng.choice("SBIF")
-                    names = {t.name for t in FAMILY[fam]}
+                    names = {t.name for t in FAMILY[fam]} | ({"int8"} if fam == "I" else set())
                     ls = self.leaves(root, depth, lambda t: t.name in names)
                     if ls is None:
                         continue
                     lf = ls[-1]
-                    B = rng.choice([t for t in FAMILY[fam] if t.name != lf[4].name])
+                    B = rng.choice([t for t in FAMILY[fam] if t.name != lf[4].name and WIDTH.get(t.name, 8) >= WIDTH.get(lf[4].name, 8)])
                     ls[-1] = ("x", lf[1], lf[2], lf[3], lf[4], B, fam)
                     o = self.tree(ls)
                 else:
